@@ -173,6 +173,49 @@ theorem reception_during_inspect_is_counted (s : Side) (id : Id) (h : s.px id = 
   rw [hhit (unboxRef s id).2 1 h1]
   simp [Tbl.recv, h1, hit, cnt]
 
+/-! ### messages the receiver cannot unbox
+
+`_unbox` can fail half way (the class of an object cannot be inspected, the round trip times out, a stale `LOCAL_REF`,
+an unknown label): the sender registered one reference per `REMOTE_REF`, but no proxy took over the ones not yet
+reached.  `splitHead j` + the two deliveries are that event for a failure after `j` references; the machine follows the
+generated constant `failedUnboxReleases` (observed on the live code: does a release notice go out for every reference
+no proxy took over?), and the invariant needs it to be true. -/
+
+/-- the code releases the references of a message it could not unbox (generated constant) -/
+theorem unreceived_references_are_released : Gen.Box.failedUnboxReleases = true := failedUnbox_released
+
+/-- **Counterexample for code that does not**: object 7 was sent, the receiver's `_unbox` failed before it, only the
+exception reply comes back: 7 stays in the owner's table with no proxy and nothing in flight. -/
+theorem unreleased_failed_unbox_leaks :
+    unreceivedTail false [7] true = [.reply]
+    ∧ ¬ Inv { St.init with tbl := addAll Tbl.empty [7], p2o := unreceivedTail false [7] true }
+    ∧ delSum 7 (unreceivedTail true [7] true) = 1 := by
+  refine ⟨rfl, ?_, by decide⟩
+  intro h
+  have := h.count 7
+  revert this
+  decide
+
+/-- a message with objects 1, 2, 1 whose unboxing fails after the first reference: the proxy that took 1 over dies and
+releases it, the two unreceived references are released one by one, then the exception reply; after delivery the
+owner's table is empty -/
+def unboxFails : List AOp := [.send [1, 2, 1], .deliverFail 1]
+
+example : (appRun App.init unboxFails).s.p2o = [.del 1 1, .del 2 1, .del 1 1, .reply]
+    ∧ (appRun App.init unboxFails).s.px 1 = none ∧ (appRun App.init unboxFails).s.tbl 1 = some 1 := by decide
+example : (appRun App.init (unboxFails ++ [.deliverP2O, .deliverP2O, .deliverP2O])).s.tbl 1 = none
+    ∧ (appRun App.init (unboxFails ++ [.deliverP2O, .deliverP2O, .deliverP2O])).s.tbl 2 = none := by decide
+
+/-- **Counterexample for "found but not counted"**: the owner registered two references of object 3 (stored count 1),
+the peer's one proxy counts one; its release notice leaves the entry in the table although no proxy exists and nothing
+is in flight.  (`oneProxyAcrossInspect` is true only for code that finds the proxy AND counts the reception; the other
+way to fail it, two proxy objects, is `C03.stale_miss_makes_two_proxies`.) -/
+theorem uncounted_reception_leaks :
+    cnt ((unboxRefAcrossInspectUncounted Side.init 3).2.2.px 3) = 1
+    ∧ (addAll Tbl.empty [3, 3]) 3 = some 1
+    ∧ (match (addAll Tbl.empty [3, 3]).decref 3 1 with | .ok t => t 3 | .error _ => none) = some 0 := by
+  refine ⟨by decide, by decide, by decide⟩
+
 /-! ### non-vacuity: the race the statement names, replayed concretely -/
 
 /-- object 7 is sent, received, its proxy dropped (release notice in flight), and *at the same time* sent again
